@@ -158,3 +158,22 @@ Proof. intros H0 Hp tt1 H1 Hm. unfold calculate_velocity. unfold vtx in *. rewri
   assert (Hz : forall d : Q, ((x0 - x0) / d == 0)%Q /\ ((y0 - y0) / d == 0)%Q).
   { intros d. split; unfold Qdiv; [setoid_replace (x0 - x0)%Q with 0%Q by ring|setoid_replace (y0 - y0)%Q with 0%Q by ring]; ring. }
   destruct Hm as [Hm|[Hm|[q [Hm Hq]]]]; rewrite Hm; try rewrite Hq; eexists; eexists; (split; [reflexivity|apply Hz]). Qed.
+
+(* ------------------------------------------------------------------ unit mobility (C03): a junction that moved by (elapsed time) x F
+   has velocity F, whatever the elapsed time (also negative: the last frame looks back) and whatever the two frames call the vertex *)
+Lemma unit_mobility_component (x0 f ti tf : Q) : ~ (tf - ti == 0)%Q -> ((x0 + (tf - ti) * f - x0) / (tf - ti) == f)%Q.
+Proof. intros H. field. exact H. Qed.
+Theorem unit_mobility_velocity_forward frames maps p t ti vs0 x0 y0 tf vs1 q fx fy :
+  nth_error frames t = Some (ti, vs0) -> assoc vs0 p = Some (x0, y0) -> t <> (length frames - 1)%nat ->
+  nth_error frames (S t) = Some (tf, vs1) -> get_point_id_by_map maps p t (S t) = Found (Some q) ->
+  assoc vs1 q = Some ((x0 + (tf - ti) * fx)%Q, (y0 + (tf - ti) * fy)%Q) -> ~ (tf - ti == 0)%Q ->
+  exists vx vy, calculate_velocity frames maps p t = Some (vx, vy) /\ (vx == fx)%Q /\ (vy == fy)%Q.
+Proof. intros H1 H2 H3 H4 H5 H6 Hdt. eexists. eexists. split; [eapply velocity_forward; eassumption|].
+  split; apply unit_mobility_component; exact Hdt. Qed.
+Theorem unit_mobility_velocity_backward_last frames maps p t ti vs0 x0 y0 tf vs1 q fx fy :
+  nth_error frames t = Some (ti, vs0) -> assoc vs0 p = Some (x0, y0) -> t = (length frames - 1)%nat ->
+  nth_error frames (t - 1) = Some (tf, vs1) -> get_point_id_by_map maps p t (t - 1) = Found (Some q) ->
+  assoc vs1 q = Some ((x0 + (tf - ti) * fx)%Q, (y0 + (tf - ti) * fy)%Q) -> ~ (tf - ti == 0)%Q ->
+  exists vx vy, calculate_velocity frames maps p t = Some (vx, vy) /\ (vx == fx)%Q /\ (vy == fy)%Q.
+Proof. intros H1 H2 H3 H4 H5 H6 Hdt. eexists. eexists. split; [eapply velocity_backward_last; eassumption|].
+  split; apply unit_mobility_component; exact Hdt. Qed.
